@@ -180,7 +180,7 @@ impl<C: Suite> Model for M03<C> {
                 a.push(Act::Sign(m, s));
             }
         }
-        for n in [2usize, 3] {
+        for n in [2usize, 3, 4, 5] {
             for s in SCHEMES {
                 a.push(Act::Agg(n, s));
             }
@@ -306,7 +306,18 @@ impl<C: Suite> Model for M03<C> {
                 let mut rsigs = vec![];
                 let mut pairs = vec![];
                 let mut lpairs = vec![];
-                for d in 0..*n {
+                // n = 2, 3: distinct signers; n = 4, 5: the first (signer, message) pair occurs again at the end / in the middle
+                let nn = *n;
+                let signer_of = |d: usize| -> usize {
+                    match nn {
+                        4 if d == 2 => 0,
+                        5 if d == 1 => 0,
+                        _ => d,
+                    }
+                };
+                let count = if nn >= 4 { 3 } else { nn };
+                for d0 in 0..count {
+                    let d = signer_of(d0);
                     let (sk, rsk) = self.key(self.next_src(*src, d));
                     let msg = self.msgs.msgs[3 + d].clone();
                     sigs.push(sk.sign(lib_scheme(*s), &msg).unwrap());
@@ -321,17 +332,19 @@ impl<C: Suite> Model for M03<C> {
                         return;
                     }
                 };
-                o.calls(1 + *n as u64);
+                o.calls(1 + count as u64);
                 let wire = Vec::<u8>::from(&agg);
                 let rb = rf::enc(&rf::aggregate::<C::R>(&rsigs));
                 let eq = wire.len() == rb.len() + 1 && wire[1..] == rb[..];
                 o.expect(&format!("C03:aggregate-bytes:{}:{}", g, s.name()), eq, "tag byte + reference point sum", "differs");
                 o.outcome(if eq { "agg:bytes-equal" } else { "agg:bytes-differ" });
+                // a repeated (key, message) pair repeats a message: refused by Basic, fine for the other two schemes
+                let want = !(nn >= 4 && *s == Scheme::Basic);
                 let rv = rf::aggregate_verify::<C::R>(*s, &pairs, &wire[1..]);
-                o.expect(&format!("C03:reference-verifies-library-aggregate:{}:{}", g, s.name()), rv, "accept", "reject");
+                o.expect(&format!("C03:reference-verifies-library-aggregate:{}:{}", g, s.name()), rv == want, if want { "accept" } else { "reject" }, if rv { "accept" } else { "reject" });
                 let lv = guard(|| agg.verify(&lpairs)).map(|r| r.is_ok()).unwrap_or(false);
                 o.calls(1);
-                o.expect(&format!("C03:library-verifies-aggregate:{}:{}", g, s.name()), lv, "accept", "reject");
+                o.expect(&format!("C03:library-verifies-aggregate:{}:{}", g, s.name()), lv == want, if want { "accept" } else { "reject" }, if lv { "accept" } else { "reject" });
             }
             St::H2C(i) => {
                 let (msg, unc) = &self.h2c[*i];
